@@ -16,13 +16,16 @@ check("C05",
       "a rejection, every key given to Tub.brokerAttached is proven (receive-loop invariant over the phases); two-ended session: any key ever "
       "registered at either end is proven, mismatches leave no connection, honest pairs connect; invariant over all histories of Tub.brokers; "
       "getReference and inbound reference URLs only over proven connections; for every history of getReference requests made before "
-      "startService (queued) and after it, each request is answered for its OWN FURL (connection key and object name). Translated from the AST on every run: the binding "
+      "startService (queued) and after it, each request is answered for its OWN FURL (connection key and object name); with several lookups pending and connections -- also "
+      "inbound ones from the Tubs being dialled (crossed connections) -- completing / failing in any order, a lookup for X is only answered with a "
+      "Broker whose leaf certificate hashes to X. Translated from the AST on every run: the binding "
       "of the SturdyRef in startService's resumption loop, the identity fragment of "
       "evaluateNegotiationVersion1, where receive_phase changes around it (handleENCRYPTED, error handler, non-deciding end), which certificate "
       "crypto.peerFromTransport returns, the attach key of switchToBanana, the listener lookup, the inbound-url check. Run on real Tubs over the "
       "in-memory network and compared with the model by vm_compute: the role x leaf x extra-chain x claim x dialled-id x GET-id matrix (968 cells "
       "quick), ~2000 raw-peer scripts (all block kinds, all chunkings, in-flight bytes delivered after hang-up; phase, theirTubRef and attached keys "
-      "after every chunk), table histories interleaving Tub peers and raw peers, ~500 getReference request histories (several Tubs / names queued before start); a "
+      "after every chunk), table histories interleaving Tub peers and raw peers, ~500 getReference request histories (several Tubs / names queued before start); ~760 crossed-connection histories on four Tubs (per-link scheduling, every completion order; Tub.brokers, "
+      "tubConnectors and answered lookups after every event vs the model); a "
       "per-reference oracle judges every getReference result (Tub.brokers key, leaf certificate, reference URL, object a call reaches) and an oracle with an independently computed hash judges every "
       "brokerAttached and every table state; 23 malformed-block families, forged URLs, gifts.",
       "Trusted: the TLS handshake proves possession of the LEAF certificate's key (the tree's own crypto.peerFromTransport and twisted's "
@@ -236,23 +239,26 @@ check("C20",
       "Coq proof over regex ASTs translated from the source (sound static cost analysis) + vm_compute correspondence against re + timing oracle", "DESIGN.md 5/C20")
 
 check("C03",
-      "Theorems (Coq, 14, for every finite sequence of callRemote / callRemoteOnly / locally rejected calls, answers, errors and answer-violations "
+      "Theorems (Coq, 16, for every finite sequence of callRemote / callRemoteOnly / locally rejected calls, answers, errors and answer-violations "
       "for any request id, complete()/fail() invoked on any request object at any time (send failure, late answer), connectionLost/shutdown with any "
-      "reason (a class listed in LOST_CONNECTION_ERRORS, a proper subclass of one, an unrelated exception) and eventual-queue turns): no Deferred is "
-      "fired twice; the first outcome is final under every continuation; waitingForAnswers holds exactly the "
+      "reason (a class listed in LOST_CONNECTION_ERRORS, a proper subclass of one, an unrelated exception), other callables -- raising or not -- queued in the shared eventual-send queue at any point, and turns of that "
+      "queue): no Deferred is fired twice; the first outcome is final under every continuation; waitingForAnswers holds exactly the "
       "registered requests that have not fired (unique, fresh ids); whenever the broker is disconnected and the eventual queue is empty the table is "
       "empty and every callRemote has fired exactly once, and loss followed by |queue| turns always reaches that state; late complete/fail/answers "
       "fire nothing; the only exception is removeRequest's KeyError on a late complete(), which changes nothing; calls on a dead broker fail at once "
       "with DeadReferenceError; every request pending when the connection ends fires with exactly the outcome the reason maps to, which is "
       "DeadReferenceError for every lost-connection reason, subclasses included (the test of abandonAllRequests -- Failure.check vs exact-type "
-      "membership -- and the list are translated). PendingRequest.complete/fail and Broker.finish are translated statement by statement from the AST into programs that "
+      "membership -- and the list are translated); one turn of the eventual queue removes exactly one event, so an event that raises drops nothing queued behind "
+      "it (the FIFO append, the batch snapshot and the per-event try/except of eventual._turn are translated). PendingRequest.complete/fail and Broker.finish are translated statement by statement from the AST into programs that "
       "the model interprets (plus shape facts for newRequestID, add/remove/getRequest, abandonAllRequests, _callRemote's commitment points and the "
-      "Answer/Error unslicers); every run validates about 4500 recorded traces (real Broker pairs cut after sampled / all byte offsets in both "
+      "Answer/Error unslicers); every run validates about 6000 recorded traces (real Broker pairs cut after sampled / all byte offsets in both "
       "directions, 7 call mixes, 7 ways of ending the connection, the reason drawn from a 24-member family: the listed classes, every stock twisted / "
-      "OpenSSL subclass, ad-hoc subclasses, unrelated exceptions, each with 0..n calls unsent / hanging / in flight / answered; 600 random op "
-      "sequences on the real objects) step by step against the model with "
+      "OpenSSL subclass, ad-hoc subclasses, unrelated exceptions, each with 0..n calls unsent / hanging / in flight / answered; raising / well-behaved eventually() callables and "
+      "notifyOnDisconnect handlers and a second connection lost in the same turn; 600 random op sequences on the real objects) step by step against the model with "
       "vm_compute, and a direct oracle (fire attempts per Deferred == 1, table empty, no escaped exception, abandoned requests get DeadReferenceError "
-      "iff the reason is a lost connection by an independently written issubclass rule, other reasons unchanged) also runs on real Tubs through "
+      "iff the reason is a lost connection by an independently written issubclass rule, other reasons unchanged; with the connection up and all "
+      "bytes delivered the outcome of every call and of a probe call is the same for two-/three-piece and fixed-size chunkings of both "
+      "directions as for whole delivery, over mixes with STRING/FLOAT/LONGINT/sequence tokens rejected on either side) also runs on real Tubs through "
       "shutdown, cuts and connection replacement.",
       "Modelled, not verified: Twisted Deferred/maybeDeferred and the eventual queue's FIFO order; logging inside fail/complete is assumed not to "
       "raise; Banana parsing and the unslicer plumbing are tied by shape facts and the cut sweep, not modelled; in-memory transports, no TLS.",
